@@ -124,7 +124,10 @@ class Check:
         return out, info
 
     # ------------------------------------------------------------------ Go
-    def go_build(self, cmd, race=False, tags="verif"):
+    def go_build(self, cmd, race=False, tags="verif", patches=None):
+        """patches: [(path relative to the repo, [(old, new), ...], text to append)] -- a source-level override of
+        constants no hook reaches, applied to a COPY of the working tree's file and passed with go's -overlay
+        (nothing is written to the repository; a pattern that no longer matches is a machinery error)."""
         out = os.path.join(self.tmp, "bin-" + cmd.replace("/", "_") + ("-race" if race else ""))
         env = dict(os.environ)
         env.update(GOENV)
@@ -142,6 +145,21 @@ class Check:
                 f.write(open(os.path.join(HARNESS, "go.mod")).read().replace("=> /repo", "=> " + repo))
             shutil.copy(os.path.join(repo, "go.sum"), os.path.join(self.tmp, "alt.sum"))
             args += ["-modfile", mf]
+        if patches:
+            rep = {}
+            for rel, subs, extra in patches:
+                src = open(os.path.join(repo, rel)).read()
+                for old, new in subs:
+                    if old not in src:
+                        raise Machinery("overlay patch for %s: pattern %r not found in the working tree" % (rel, old))
+                    src = src.replace(old, new)
+                dst = os.path.join(self.tmp, "overlay-" + rel.replace("/", "_"))
+                with open(dst, "w") as f:
+                    f.write(src + "\n" + (extra or ""))
+                rep[os.path.join(repo, rel)] = dst
+            ov = os.path.join(self.tmp, "overlay-%s.json" % cmd)
+            json.dump({"Replace": rep}, open(ov, "w"))
+            args += ["-overlay", ov]
         if race:
             args.append("-race")
         args.append("./cmd/" + cmd)
